@@ -64,7 +64,9 @@ Normalize(min, max, emin, emax, D) ==
 TruncInt(v) == IF v.t # "num" THEN v
                ELSE IF v.h >= 0 THEN JNum((v.h \div U) * U) ELSE JNum(-(((-v.h) \div U) * U))
 BoundaryRejects(p, ex, x, upper, isInt, D) ==
-  LET b == IF isInt /\ "IntBoundTruncated" \in D /\ p.on THEN TruncInt(p.v) ELSE p.v IN
+  LET b0 == IF isInt /\ "IntBoundTruncated" \in D /\ p.on THEN TruncInt(p.v) ELSE p.v
+      b  == IF isInt /\ p.on THEN GoBound(b0, D) ELSE b0     \* int64(float64 constant): deviation Float64Bounds
+  IN
   /\ p.on
   /\ IF upper THEN (IF ex THEN NumLE(b, x) ELSE NumLT(b, x))
               ELSE (IF ex THEN NumLE(x, b) ELSE NumLT(x, b))
